@@ -152,6 +152,9 @@ package influxql
 //@   loop 1 step k == old(k) + spec_scanLen(rsin(r, old(k)))
 //@   loop 1 step content(buf) == scat(old(content(buf)), srune(spec_scanRune(rsin(r, old(k)), rsin(r, old(k)+1))))
 //@   ensures result1 == nil ==> k >= old(k) + 2 && spec_scanKind(q, rsin(r, k-1), 0) == 1
+// the only runes that end a literal with "bad string" are the end of input and the line feed (the converse of
+// the step clause: every other rune continues the literal or closes it)
+//@   ensures [C06, C02] @rejects (entry(rscur(r)) >= 0 && entry(rscur(r)) < rslen(r) && result1 != nil && result1 != errBadEscape) ==> (local(ch0) == 0 || local(ch0) == '\n')
 
 // per-rune lemmas: the scanner step inverts the escaper and cannot be terminated by escaped text
 //@ lemma escScanInverse2 [C06, C02] forall q rune, c rune :: (q == '\'' || q == '"') && c != 0 && spec_escSecond(q, c) != 0 ==>
